@@ -107,12 +107,12 @@ func (g *gctx) monExpr(asset string, v *big.Int) Expr {
 			a := new(big.Int).Quo(v, big.NewInt(2))
 			b := new(big.Int).Sub(v, a)
 			g.label("monetary-arith")
-			return BinOp{'+', LitMonetary{g.assetExpr(asset), a}, LitMonetary{g.assetExpr(asset), b}}
+			return BinOp{'+', LitMonetary{g.assetExpr(asset), a, g.pad()}, LitMonetary{g.assetExpr(asset), b, 0}}
 		}
 	case 1: // (v+k) - k
 		k := big.NewInt(int64(rapid.IntRange(1, 50).Draw(g.t, "k")))
 		g.label("monetary-arith")
-		return BinOp{'-', LitMonetary{g.assetExpr(asset), new(big.Int).Add(v, k)}, LitMonetary{g.assetExpr(asset), k}}
+		return BinOp{'-', LitMonetary{g.assetExpr(asset), new(big.Int).Add(v, k), 0}, LitMonetary{g.assetExpr(asset), k, g.pad()}}
 	case 2: // bound variable
 		if len(g.prog.Vars) < 12 {
 			name := g.declare(TMonetary, asset+" "+v.String(), nil)
@@ -122,7 +122,7 @@ func (g *gctx) monExpr(asset string, v *big.Int) Expr {
 			return VarRef{name}
 		}
 	}
-	return LitMonetary{g.assetExpr(asset), new(big.Int).Set(v)}
+	return LitMonetary{g.assetExpr(asset), new(big.Int).Set(v), g.pad()}
 }
 
 func (g *gctx) accountExpr(acc string) Expr {
@@ -355,6 +355,15 @@ func (g *gctx) portionSet(k int) []Portion {
 	return out
 }
 
+// pad draws the number of leading zeros an amount is written with (mostly none): "0100" is one hundred.
+func (g *gctx) pad() int {
+	if rapid.IntRange(0, 7).Draw(g.t, "padded") != 0 {
+		return 0
+	}
+	g.label("leading-zeros")
+	return rapid.IntRange(1, 3).Draw(g.t, "pad")
+}
+
 // ---- destinations
 
 func (g *gctx) destAccount() Expr {
@@ -507,7 +516,7 @@ func (g *gctx) send() Send {
 		if amount == nil {
 			// a negative result of arithmetic
 			k := big.NewInt(int64(rapid.IntRange(1, 20).Draw(g.t, "negBy")))
-			s.Amount = BinOp{'-', LitMonetary{g.assetExpr(asset), big.NewInt(3)}, LitMonetary{g.assetExpr(asset), new(big.Int).Add(big.NewInt(3), k)}}
+			s.Amount = BinOp{'-', LitMonetary{g.assetExpr(asset), big.NewInt(3), 0}, LitMonetary{g.assetExpr(asset), new(big.Int).Add(big.NewInt(3), k), 0}}
 			amount = big.NewInt(0)
 		} else if rapid.IntRange(0, 9).Draw(g.t, "balanceAmount") == 0 {
 			// amount = balance(@x, ASSET)
@@ -537,9 +546,9 @@ func (g *gctx) anyValueExpr() Expr {
 		n := new(big.Int).Add(pow(2, 64), big.NewInt(int64(rapid.IntRange(0, 9).Draw(g.t, "vn"))))
 		if rapid.Bool().Draw(g.t, "arith") {
 			g.label("number-arith")
-			return BinOp{'-', BinOp{'+', LitNumber{n}, LitNumber{big.NewInt(7)}}, LitNumber{big.NewInt(int64(rapid.IntRange(0, 20).Draw(g.t, "vk")))}}
+			return BinOp{'-', BinOp{'+', LitNumber{n, 0}, LitNumber{big.NewInt(7), g.pad()}}, LitNumber{big.NewInt(int64(rapid.IntRange(0, 20).Draw(g.t, "vk"))), 0}}
 		}
-		return LitNumber{big.NewInt(int64(rapid.IntRange(0, 1000).Draw(g.t, "vsmall")))}
+		return LitNumber{big.NewInt(int64(rapid.IntRange(0, 1000).Draw(g.t, "vsmall"))), g.pad()}
 	case 3:
 		return LitString{rapid.StringMatching(`[a-zA-Z0-9_\- ]{0,12}`).Draw(g.t, "vStr")}
 	case 4:
@@ -582,6 +591,12 @@ func (g *gctx) otherStmt() Stmt {
 		g.savedAcc, g.savedAsset = accName, asset
 		if rapid.IntRange(0, 2).Draw(g.t, "saveAll") == 0 {
 			return Save{AllAsset: g.assetExpr(asset), Acc: acc}
+		}
+		if rapid.IntRange(0, 9).Draw(g.t, "saveNegative") == 0 {
+			// arithmetic that yields a negative amount: nothing can be set aside, the script is refused
+			g.label("save:negative")
+			k := big.NewInt(int64(rapid.IntRange(1, 40).Draw(g.t, "saveNeg")))
+			return Save{Amount: BinOp{'-', LitMonetary{g.assetExpr(asset), big.NewInt(3), 0}, LitMonetary{g.assetExpr(asset), new(big.Int).Add(big.NewInt(3), k), 0}}, Acc: acc}
 		}
 		return Save{Amount: g.monExpr(asset, big.NewInt(int64(rapid.IntRange(0, 120).Draw(g.t, "saveAmt")))), Acc: acc}
 	}
@@ -640,6 +655,23 @@ func GenTyped(t *rapid.T, cfg GenCfg) *Case {
 		Tabs:      rapid.Bool().Draw(t, "tabs"),
 		Comments:  rapid.IntRange(0, 3).Draw(t, "comments") == 0,
 		BlankRuns: rapid.IntRange(0, 3).Draw(t, "blank") == 0,
+	}
+	// bindings of number and monetary variables may be written with leading zeros too
+	for _, v := range g.prog.Vars {
+		val, bound := g.env.Vars[v.Name]
+		if !bound || v.Origin != nil || (v.Type != TNumber && v.Type != TMonetary) {
+			continue
+		}
+		if rapid.IntRange(0, 7).Draw(t, "paddedBinding") != 0 {
+			continue
+		}
+		zeros := strings.Repeat("0", rapid.IntRange(1, 3).Draw(t, "bindingPad"))
+		if i := strings.LastIndex(val, " "); v.Type == TMonetary && i >= 0 {
+			g.env.Vars[v.Name] = val[:i+1] + zeros + val[i+1:]
+		} else if v.Type == TNumber {
+			g.env.Vars[v.Name] = zeros + val
+		}
+		g.label("leading-zeros")
 	}
 	c := &Case{Prog: g.prog, Env: g.env, Layout: l, Text: Render(g.prog, l), Excluded: g.excluded}
 	for k := range g.labels {
